@@ -533,16 +533,20 @@ def check_string_or_element_function(string_or_element, token):
 
 
 def check_var_function(token):
-    if function := parse_function(token):
-        name, args = function
-        if name == 'var' and args:
-            ident = args.pop(0)
-            # TODO: we should check authorized tokens
-            # https://drafts.csswg.org/css-syntax-3/#typedef-declaration-value
-            return ident.type == 'ident' and ident.value.startswith('--')
-        for arg in args:
-            if check_var_function(arg):
-                return True
+    if token.type != 'function':
+        return
+    args = remove_whitespace(token.arguments)
+    if token.lower_name == 'var' and args:
+        ident = args[0]
+        # TODO: we should check authorized tokens
+        # https://drafts.csswg.org/css-syntax-3/#typedef-declaration-value
+        if ident.type == 'ident' and ident.value.startswith('--'):
+            # The fallback value is after the first comma, and can be empty.
+            return len(args) == 1 or args[1] == ','
+        return False
+    for arg in args:
+        if check_var_function(arg):
+            return True
 
 
 def get_string(token):
@@ -565,9 +569,9 @@ def get_length(token, negative=True, percentage=False):
     if percentage and token.type == 'percentage':
         if negative or token.value >= 0:
             return Dimension(token.value, '%')
-    if token.type == 'dimension' and token.unit in LENGTH_UNITS:
+    if token.type == 'dimension' and token.lower_unit in LENGTH_UNITS:
         if negative or token.value >= 0:
-            return Dimension(token.value, token.unit)
+            return Dimension(token.value, token.lower_unit)
     if token.type == 'number' and token.value == 0:
         return Dimension(0, None)
 
@@ -575,7 +579,7 @@ def get_length(token, negative=True, percentage=False):
 def get_angle(token):
     """Parse an <angle> token in radians."""
     if token.type == 'dimension':
-        factor = ANGLE_TO_RADIANS.get(token.unit)
+        factor = ANGLE_TO_RADIANS.get(token.lower_unit)
         if factor is not None:
             return token.value * factor
 
@@ -583,7 +587,7 @@ def get_angle(token):
 def get_resolution(token):
     """Parse a <resolution> token in ddpx."""
     if token.type == 'dimension':
-        factor = RESOLUTION_TO_DPPX.get(token.unit)
+        factor = RESOLUTION_TO_DPPX.get(token.lower_unit)
         if factor is not None:
             return token.value * factor
 
